@@ -210,6 +210,79 @@ def judge(st, n, edges, kinds, rank, few_roots=False):
                 st.violation("dependency-after-dependent", "%s: yielded %s but %s" % (case, got, ["K%d needs K%d" % b for b in bad]), {**case, "yielded": got}, rank)
 
 
+def inheritance_cases(st):
+    """Models that inherit from another model AND refer to it (or to others) from a keyword position: the parent model is a
+    dependency through the class statement itself.  Oracle: a permutation of all classes, every class after its parents and
+    after everything it refers to."""
+    def mk(name, bases=(Object,)):
+        cd = ObjectClassDict()
+        cd["own_" + name.lower()] = Property(String())
+        return ObjectMeta(name, bases, cd)
+
+    n = 0
+    for kind in KINDS:
+        for kind2 in ("properties", "items", "anyOf", "additionalProperties"):
+            for shape in ("node(base)->base,other", "node(base)->other->leaf", "grand(node(base))->base", "node(base), sib(base)->node", "node(base)->base twice"):
+                base, other, leaf = mk("Base"), mk("Other"), mk("Leaf")
+                node = mk("Node", (base,))
+                classes = [base, other, node]
+                deps = {"Node": {"Base"}}
+                roots = [node]
+                if shape == "node(base)->base,other":
+                    attach(node, [(kind, base), (kind2, other)], "n")
+                    deps["Node"] |= {"Other"}
+                elif shape == "node(base)->other->leaf":
+                    attach(node, [(kind, other)], "n")
+                    attach(other, [(kind2, leaf)], "o")
+                    attach(base, [(kind2, leaf)], "b")
+                    classes.append(leaf)
+                    deps["Node"] |= {"Other"}
+                    deps["Other"] = {"Leaf"}
+                    deps["Base"] = {"Leaf"}
+                elif shape == "grand(node(base))->base":
+                    grand = mk("Grand", (node,))
+                    attach(grand, [(kind, base), (kind2, other)], "g")
+                    classes.append(grand)
+                    deps["Grand"] = {"Node", "Base", "Other"}
+                    roots = [grand]
+                elif shape == "node(base), sib(base)->node":
+                    sib = mk("Sib", (base,))
+                    attach(sib, [(kind, node), (kind2, other)], "s")
+                    classes.append(sib)
+                    deps["Sib"] = {"Base", "Node", "Other"}
+                    roots = [sib]
+                else:
+                    attach(node, [(kind, base), (kind2, base), ("properties", other)], "n")
+                    deps["Node"] |= {"Other"}
+                n += 1
+                st.add("states")
+                st.add("transitions", 3)
+                st.add("evaluations")
+                st.add("traces")
+                st.add("nontrivial")
+                case = {"inheritance_shape": shape, "kinds": [kind, kind2]}
+                try:
+                    got = impl.with_budget(lambda: [c.__name__ for c in orderer(*roots)], BUDGET)
+                except Exception as exc:
+                    st.violation("orderer-raised:%s:inheritance" % type(exc).__name__, "%s: %r" % (case, exc), case)
+                    continue
+                reach = set()
+                stack = [r.__name__ for r in roots]
+                while stack:
+                    x = stack.pop()
+                    if x not in reach:
+                        reach.add(x)
+                        stack.extend(deps.get(x, ()))
+                if sorted(got) != sorted(reach):
+                    st.violation("incomplete-or-duplicated-order:inheritance", "%s: classes %s, yielded %s" % (case, sorted(reach), got), {**case, "yielded": got})
+                    continue
+                pos = {name: k for k, name in enumerate(got)}
+                bad = [(a, b) for a in reach for b in deps.get(a, ()) if pos[b] > pos[a]]
+                if bad:
+                    st.violation("dependency-after-dependent:inheritance", "%s: yielded %s but %s" % (case, got, ["%s needs %s" % x for x in bad]), {**case, "yielded": got})
+                st.outcome("inheritance/order")
+
+
 def all_graphs(n):
     pairs = [(i, j) for i in range(n) for j in range(n)]
     for mask in range(1 << len(pairs)):
@@ -227,6 +300,7 @@ def plan(tier, seed):
     mod = 64 if tier == "quick" else 4
     for r in range(64):
         items.append(("mixed", 3, r, 64, (seed % mod, mod)))
+    items.append(("inherit",))
     if tier == "thorough":
         total = 1 << 16
         step = 256
@@ -237,6 +311,10 @@ def plan(tier, seed):
 
 def work(item):
     st = runner.Stats()
+    if item[0] == "inherit":
+        inheritance_cases(st)
+        st.sample({"inheritance_shapes": 5, "kinds": len(KINDS) * 4})
+        return st
     if item[0] == "uniform":
         _, n, lo, hi, kinds = item
         pairs = [(i, j) for i in range(n) for j in range(n)]
